@@ -125,7 +125,7 @@ Section Event.
      module m whose awaited future completes exactly at t *)
   Lemma ev_woken d es id : In (d, es) (fst (activate t dr0)) -> In id es ->
     exists k tk a s, nth_error (w_tasks w) k = Some tk /\ t_cur tk = Some a /\ In s (held tk) /\ t_mod tk = m /\
-                     sid s = id /\ deadline s = d /\ d = t /\ aw_wake a = t /\ waker_of (w_owner w) id = Some k.
+                     sid s = id /\ deadline s = d /\ d = t /\ aw_wake a (t_iv tk) = t /\ waker_of (w_owner w) id = Some k.
   Proof.
     intros Hin Hid. pose proof (pe_base _ _ _ _ _ _ _ HP) as Hbase.
     destruct (pe_drv _ _ _ _ _ _ _ HP m (pe_m _ _ _ _ _ _ _ HP)) as (l & _ & [Hmid Hwake] & _ & [Hentry Htask _] & _).
@@ -139,11 +139,11 @@ Section Event.
     assert (Hi0 : init_ok tk0).
     { pose proof (b_init _ _ _ _ Hbase) as Hall. rewrite Forall_forall in Hall. apply Hall. eapply nth_error_In; exact Hk0. }
     destruct (held_blocked _ _ _ Hst Hi0 Hs) as (a & Hc & Hkind & Hsa & _ & _ & Hheld).
-    destruct (aw_wake_held a Hkind) as [(smin & Hsmin & Emin) Hge].
+    destruct (aw_wake_held a _ Hkind) as [(smin & Hsmin & Emin) Hge].
     (* the Sleep that completes the future is registered: the wake-up that covers it is not before t *)
-    assert (Hreg : In (sid smin) (ents_at (aw_wake a) (pending (drv_of w m)))).
+    assert (Hreg : In (sid smin) (ents_at (aw_wake a (t_iv tk)) (pending (drv_of w m)))).
     { rewrite <- Emin. apply (Hentry k tk smin Hk); [rewrite Hheld; exact Hsmin|exact Hm|left; intros []]. }
-    assert (Hne : ents_at (aw_wake a) (pending (drv_of w m)) <> []) by (intros E; rewrite E in Hreg; contradiction).
+    assert (Hne : ents_at (aw_wake a (t_iv tk)) (pending (drv_of w m)) <> []) by (intros E; rewrite E in Hreg; contradiction).
     destruct (Hwake _ _ (ents_at_in _ _ Hne) Hne (base_blocked_fin _ _ _ _ _ _ _ Hbase Hk Hc)) as (w0 & Hw0 & _ & Hw0d).
     pose proof (ev_sched_ge w0 Hw0) as Htw. pose proof (Hge s Hsa) as Hws.
     exists k, tk, a, s. repeat split; try assumption; try lia.
@@ -156,7 +156,7 @@ Section Event.
   Let w1 := set_drv w m dr1.
 
   Lemma ev_q0_woken k : In k (flat_map (owner_of (w_owner w)) (flat_map snd woken)) ->
-    exists tk a, nth_error (w_tasks w) k = Some tk /\ t_cur tk = Some a /\ t_mod tk = m /\ aw_wake a = t.
+    exists tk a, nth_error (w_tasks w) k = Some tk /\ t_cur tk = Some a /\ t_mod tk = m /\ aw_wake a (t_iv tk) = t.
   Proof.
     intros H. apply in_flat_map in H. destruct H as (id & Hid & Hk). apply in_flat_map in Hid.
     destruct Hid as ([d es] & Hsl & Hes). cbn [snd] in Hes.
@@ -210,7 +210,7 @@ Section Event.
   Proof.
     intros Hin Hk Hc. pose proof (pe_base _ _ _ _ _ _ _ HP) as Hbase.
     destruct (pe_drv _ _ _ _ _ _ _ HP m (pe_m _ _ _ _ _ _ _ HP)) as (l & _ & [Hmid _] & _ & [Hentry _ _] & ([_ _ _ Hcov] & _)).
-    assert (Hwk : aw_wake a = t /\ t_mod tk = m).
+    assert (Hwk : aw_wake a (t_iv tk) = t /\ t_mod tk = m).
     { unfold q0 in Hin. rewrite dedup_in in Hin. apply in_app_or in Hin. destruct Hin as [Hin|Hin].
       - destruct (ev_q0_woken k Hin) as (tk' & a' & H1 & H2 & H3 & H4). rewrite Hk in H1. injection H1 as <-.
         rewrite Hc in H2. injection H2 as <-. split; assumption.
@@ -220,8 +220,8 @@ Section Event.
     destruct (Forall2_nth _ _ _ _ _ (b_states _ _ _ _ Hbase) Hk) as (tk0 & Hk0 & Hst).
     assert (Hi0 : init_ok tk0).
     { pose proof (b_init _ _ _ _ Hbase) as Hall. rewrite Forall_forall in Hall. apply Hall. eapply nth_error_In; exact Hk0. }
-    destruct (tstate_blocked _ _ _ Hst Hi0 Hc) as (st & rest & _ & _ & _ & _ & _ & _ & Hkind & _ & _ & Hheld & _).
-    destruct (aw_wake_held a Hkind) as [(smin & Hsmin & Emin) _].
+    destruct (tstate_blocked _ _ _ Hst Hi0 Hc) as (st0 & rest0 & _ & _ & _ & _ & _ & Hkind & _ & _ & Hheld & _).
+    destruct (aw_wake_held a _ Hkind) as [(smin & Hsmin & Emin) _].
     assert (Hreg : In (sid smin) (ents_at t (pending (drv_of w m)))).
     { rewrite <- Hwk, <- Emin. apply (Hentry k tk smin Hk); [rewrite Hheld; exact Hsmin|exact Hm|left; intros []]. }
     assert (Hne : ents_at t (pending (drv_of w m)) <> []) by (intros E; rewrite E in Hreg; contradiction).
@@ -351,7 +351,7 @@ Proof.
     destruct (Forall2_nth _ _ _ _ _ (b_states _ _ _ _ B0) Hkp) as (tk0' & Hk0' & Hst0).
     rewrite Hk0 in Hk0'. injection Hk0' as <-.
     assert (Hi : init_ok tk0). { pose proof (b_init _ _ _ _ B0) as Ha. rewrite Forall_forall in Ha. apply Ha. eapply nth_error_In; exact Hk0. }
-    destruct (tstate_cases _ _ Hst2 Hi) as (_ & E2 & _). destruct (tstate_cases _ _ Hst0 Hi) as (_ & E0 & _). congruence. }
+    destruct (tstate_cases _ _ Hst2 Hi) as (E2 & _). destruct (tstate_cases _ _ Hst0 Hi) as (E0 & _). congruence. }
   constructor; cbn [w_fes w_now w_mail w_tasks w_owner w_nid].
   - exact Hsi'.
   - exact Htc'.
@@ -530,13 +530,13 @@ Proof.
         assert (Hii : init_ok tki).
         { pose proof (b_init _ _ _ _ Hbase) as Hall. rewrite Forall_forall in Hall. apply Hall. eapply nth_error_In; exact Hki. }
         destruct (held_blocked _ _ _ Hsti Hii Hs0') as (a0 & Hc0 & Hkind0 & Hsa0 & _ & _ & Hheld0).
-        destruct (aw_wake_held a0 Hkind0) as [(smin & Hsmin & Emin) Hge].
+        destruct (aw_wake_held a0 _ Hkind0) as [(smin & Hsmin & Emin) Hge].
         pose proof (base_blocked_fin _ _ _ _ _ _ _ Hbase Hk0 Hc0) as Hfinw.
         pose proof (Hge s0 Hsa0) as Hwd. rewrite E0 in Hwd.
         (* the Sleep that completes the awaited future is registered, live, not popped: the front is not after it *)
-        assert (Hreg : In (sid smin) (ents_at (aw_wake a0) (pending (drv_of w m)))).
+        assert (Hreg : In (sid smin) (ents_at (aw_wake a0 (t_iv tk0)) (pending (drv_of w m)))).
         { rewrite <- Emin. apply (Hentry0 k0 tk0 smin Hk0); [rewrite Hheld0; exact Hsmin|exact Hm0|left; intros []]. }
-        assert (Hnew : ents_at (aw_wake a0) (pending (drv_of w m)) <> []) by (intros E; rewrite E in Hreg; contradiction).
+        assert (Hnew : ents_at (aw_wake a0 (t_iv tk0)) (pending (drv_of w m)) <> []) by (intros E; rewrite E in Hreg; contradiction).
         pose proof (prune_keeps_live _ _ _ (Hlive_rest _ _ (ents_at_in _ _ Hnew) Hnew) Hnew) as Hinp.
         rewrite Epr in Hinp. destruct Hinp as [Hinp|Hinp]; [injection Hinp as -> _; exact Hfinw|].
         assert (Hsp : sorted (prune rest)).
